@@ -640,6 +640,8 @@ func regC02(add addFn, p pFn) {
 	add(&Instance{Property: "C02", Name: "busy-client-n1100", Entry: "service.VH_C02_BusyClient", Params: p("n", 1100), Stubs: lt, Replay: "stubbed", Unwind: 3000, MaxSteps: 400000000, TimeoutS: 1500, Reach: []string{"done"}, Bound: "1100 tracked authenticators of one client"})
 	add(&Instance{Property: "C02", Name: "concurrent-same-2", Entry: "service.VH_C02_ConcurrentSame", Params: p("threads", 2), Stubs: lt, Replay: "stubbed", Reach: []string{"done"}, Bound: "2 goroutines, the same symbolic authenticator, EVERY interleaving at the lock operations"})
 	add(&Instance{Property: "C02", Name: "concurrent-same-3", Entry: "service.VH_C02_ConcurrentSame", Params: p("threads", 3), Stubs: lt, Replay: "stubbed", Tier: "thorough", TimeoutS: 1500, Reach: []string{"done"}, Bound: "3 goroutines, every interleaving"})
+	add(&Instance{Property: "C02", Name: "sweeper-skew", Entry: "service.VH_C02_SweeperSkew", Stubs: []string{"lineartime", "bgo"}, Replay: "stubbed", Reach: []string{"swept"},
+		Bound: "two services (skews 1 and 10 minutes) sharing the process-wide cache; the background sweeper goroutine run through one wake-up at an arbitrary later instant"})
 	add(&Instance{Property: "C02", Name: "sweep-vs-presentation", Entry: "service.VH_C02_SweepVsPresentation", Stubs: lt, Replay: "stubbed", Reach: []string{"done"}, Bound: "a clean-up concurrent with the presentation of a fresh authenticator by a client whose only tracked authenticator has expired: every interleaving at lock granularity"})
 	add(&Instance{Property: "C02", Name: "concurrent-distinct", Entry: "service.VH_C02_ConcurrentDistinct", Stubs: lt, Replay: "stubbed", Reach: []string{"done"}, Bound: "2 verifications of distinct authenticators and a clean-up thread, every interleaving"})
 }
